@@ -354,13 +354,21 @@ func engineCuts(f *rep.Flags, res *rep.Result) {
 			continue
 		}
 		v, sig := runCut(c)
-		if len(v) > 0 && sig != "C16|machinery" {
-			if v2, sig2 := runCut(c); len(v2) == 0 {
+		for try := 0; try < 2 && len(v) > 0; try++ {
+			// believed only if it fails three times in a row
+			time.Sleep(200 * time.Millisecond)
+			v2, sig2 := runCut(c)
+			if len(v2) == 0 {
 				res.Notes = append(res.Notes, fmt.Sprintf("not reproduced on re-execution: %+v: %s", c, v[0]))
 				v = nil
 			} else {
 				v, sig = v2, sig2
 			}
+		}
+		if len(v) > 0 && sig == "C16|machinery" {
+			res.Exhaustive = false
+			res.Notes = append(res.Notes, fmt.Sprintf("case skipped, environment could not be set up: %+v: %s", c, v[0]))
+			v = nil
 		}
 		mu.Lock()
 		res.Evaluations++
@@ -567,6 +575,7 @@ func engineHistories(f *rep.Flags, res *rep.Result) {
 		gating bool
 	}
 	jobs := make(chan job, 16)
+	var suspects []job
 	var stuck int32
 	// the gate is process-global: one history at a time when gating; run the two modes in separate phases
 	for _, gating := range []bool{false, true} {
@@ -584,15 +593,11 @@ func engineHistories(f *rep.Flags, res *rep.Result) {
 						continue
 					}
 					v, sig, _ := runHistory(j.h, j.gating)
-					if len(v) > 0 && sig != "C16|machinery" {
-						if v2, sig2, _ := runHistory(j.h, j.gating); len(v2) == 0 {
-							mu.Lock()
-							res.Notes = append(res.Notes, fmt.Sprintf("not reproduced on re-execution: history %q gating=%v: %s", j.h, j.gating, v[0]))
-							mu.Unlock()
-							v = nil
-						} else {
-							v, sig = v2, sig2
-						}
+					if len(v) > 0 {
+						mu.Lock()
+						suspects = append(suspects, j)
+						mu.Unlock()
+						v = nil
 					}
 					mu.Lock()
 					res.Evaluations++
@@ -626,6 +631,33 @@ func engineHistories(f *rep.Flags, res *rep.Result) {
 		}
 		close(jobs)
 		wg.Wait()
+	}
+	// confirmation pass: alone, three failures in a row
+	for _, j := range suspects {
+		var v []string
+		var sig string
+		fails := 0
+		for try := 0; try < 3; try++ {
+			v, sig, _ = runHistory(j.h, j.gating)
+			if len(v) == 0 {
+				break
+			}
+			fails++
+			time.Sleep(200 * time.Millisecond)
+		}
+		if fails < 3 {
+			res.Notes = append(res.Notes, fmt.Sprintf("not reproduced when re-executed alone: history %q gating=%v", j.h, j.gating))
+			continue
+		}
+		if sig == "C16|machinery" {
+			res.Exhaustive = false
+			continue
+		}
+		mode := "immediate-notification"
+		if j.gating {
+			mode = "held-notification"
+		}
+		res.Add(sig+"|"+mode, strings.Join(v, "\n  "), map[string]any{"engine": "histories", "history": j.h, "gating": j.gating})
 	}
 	if atomic.LoadInt32(&stuck) >= 3 {
 		res.Exhaustive = false
